@@ -118,7 +118,9 @@ class Tokenizer:
             if m.group(0) == '\\\\':
                 return m.group(0)
             num = int(m.group(0)[1:], 16)
-            if num <= sys.maxunicode:
+            if 0 < num <= sys.maxunicode:
+                # (U+0000 stays an escape: as a character it would make the
+                # serialised sheet look like UTF-16/32 or end a C string)
                 return chr(num)
             else:
                 return m.group(0)
